@@ -132,6 +132,10 @@ class _Shim:
     def Lock():
         return S.SchedLock(_Shim.cur, name="handle") if _Shim.cur is not None else _real_threading.Lock()
 
+    @staticmethod
+    def RLock():
+        return S.SchedLock(_Shim.cur, reentrant=True, name="handle") if _Shim.cur is not None else _real_threading.RLock()
+
     def __getattr__(self, k):
         return getattr(_real_threading, k)
 
@@ -227,7 +231,8 @@ def gen_programs(r, tree, nthreads, nops):
 
 
 FIXED_PROGRAMS = [
-    # two first-touch readers of the same lazily loaded directory
+    # two first-touch readers of the same lazily loaded directory (small: exhaustible at bound 2)
+    [[["listdir", "/C/Y"]], [["listdir", "/C/Y"]]],
     [[["listdir", "/A"]], [["listdir", "/A"]]],
     [[["listdir", "/A/B"]], [["getinfo", "/A/B/D.TXT"]]],
     [[["readbytes", "/A/F2.BIN"]], [["readbytes", "/F1.BIN"]]],
@@ -272,8 +277,13 @@ def explore(res, img, off, progs, mode, bound, max_runs, writers, label, cfg_i):
                 return True
         return False
 
-    runs, exhausted = S.explore_bounded(run_one, bound, max_runs, on_result)
-    res.count("exhausted:" + mode, 1 if exhausted else 0)
+    seen = set()
+    runs, exhausted = S.explore_bounded(run_one, min(1, bound), max_runs, on_result, seen=seen)
+    res.count("exhausted-bound1:" + mode, 1 if exhausted else 0)
+    if bound > 1 and not found and runs < max_runs:
+        r2, exhausted = S.explore_bounded(run_one, bound, max_runs - runs, on_result, seen=seen)
+        runs += r2
+        res.count("exhausted-bound%d:%s" % (bound, mode), 1 if exhausted else 0)
     res.count("program-sets:" + mode)
     return found, runs, exhausted
 
@@ -295,10 +305,12 @@ def run(tier):
         if tier != "quick":
             sets.append((gen_programs(r, TREE, 4, 1), "rand4"))
         for progs, label in sets:
-            plans = [("dev", 2 if len(progs) == 2 else 1, 400 if tier == "quick" else 3000),
-                     ("line", 2 if len(progs) == 2 else 1, 500 if tier == "quick" else 4000)]
+            plans = [("dev", 2 if len(progs) == 2 else 1, 300 if tier == "quick" else 3000),
+                     ("line", 2 if len(progs) == 2 else 1, 400 if tier == "quick" else 6000)]
+            if label == "fixed0":
+                plans = [("dev", 2, 3000), ("line", 2, 3000 if tier == "quick" else 20000)]
             if ci > 0 and tier == "quick":
-                plans = [(m, 1, 120) for (m, b, n) in plans]
+                plans = [(m, 1, 80) for (m, b, n) in plans]
             for mode, bound, cap in plans:
                 try:
                     found, runs, exhausted = explore(res, img, off, progs, mode, bound, cap, writers, label, ci)
